@@ -899,7 +899,7 @@ prop('C04', ['uvl-Type', 'uvl-FCard', 'uvl-Attr', 'uvl-Star', 'uvl-Abs', 'Ref-uv
 
 
 REF_FORMATS = {
-    'fide': dict(surface='Surface-fide', sources=['fide-Tree', 'fide-Ctc', 'fide-Abs', 'Ref-fide-Ctc3', 'Ref-Chain', 'fide-Dup'], size=12,
+    'fide': dict(surface='Surface-fide', sources=['fide-Tree', 'fide-Ctc', 'fide-Abs', 'Ref-fide-Ctc3', 'Ref-fide-Chain', 'fide-Dup'], size=12,
                  wanted=['longchain', 'dupctc', 'sameshapectc', 'mandatory', 'optional', 'or', 'alternative', 'abstract', 'multi-rel-parent', 'nary', 'op:NOT', 'op:AND',
                          'op:OR', 'op:IMPLIES', 'op:EQUIVALENCE', 'op:REQUIRES', 'op:EXCLUDES'],
                  ok=lambda m: True),
@@ -913,7 +913,7 @@ REF_FORMATS = {
                 wanted=['dupctc', 'sameshapectc', 'mandatory', 'optional', 'or', 'alternative', 'mutex', 'cardinality', 'multi-rel-parent', 'attr',
                         'op:NOT', 'op:AND', 'op:OR', 'op:IMPLIES', 'op:EQUIVALENCE', 'op:REQUIRES', 'op:EXCLUDES'],
                 ok=lambda m: True),
-    'glencoe': dict(surface='Surface-glencoe', sources=['Ref-glencoe-Ctc', 'glencoe-Tree', 'Ref-Chain', 'glencoe-Dup'], size=12,
+    'glencoe': dict(surface='Surface-glencoe', sources=['Ref-glencoe-Ctc', 'glencoe-Tree', 'Ref-glencoe-Chain', 'glencoe-Dup'], size=12,
                     wanted=['longchain', 'dupctc', 'sameshapectc', 'mandatory', 'optional', 'or', 'alternative', 'mutex', 'cardinality', 'op:NOT', 'op:AND', 'op:OR',
                             'op:XOR', 'op:IMPLIES', 'op:EQUIVALENCE', 'op:REQUIRES', 'op:EXCLUDES'],
                     ok=lambda m: len({c['name'] for c in m['ctcs']}) == len(m['ctcs'])),
